@@ -164,6 +164,7 @@ type l5Obs struct {
 	ClosedUse   int      `json:"closedUse"`
 	ClosedErrs  int      `json:"closedErrs"`
 	AllDropped  bool     `json:"allDropped"`
+	NoStats     bool     `json:"noStats"` // degraded mode: the cache snapshot hook is not available
 	Errors      []string `json:"errors"`
 	Panic       string   `json:"panic,omitempty"`
 }
@@ -171,7 +172,7 @@ type l5Obs struct {
 func shapeOfSQL(q string) int { return strings.Count(q, "@sqlair_") }
 
 func runL5Case(h []l5Op) (obs *l5Obs) {
-	obs = &l5Obs{Segs: []l5Seg{}, Pairs: [][3]int{}, Errors: []string{}, Execs: [][]any{}}
+	obs = &l5Obs{Segs: []l5Seg{}, Pairs: [][3]int{}, Errors: []string{}, Execs: [][]any{}, NoStats: !hooksAvailable}
 	preparedSQL := map[dsKey]string{}
 	closedDS := map[dsKey]bool{}
 	defer func() {
@@ -228,7 +229,7 @@ func runL5Case(h []l5Op) (obs *l5Obs) {
 		for _, st := range keep {
 			n += len(st.Events())
 		}
-		cs := sqlair.VerifGetCacheStats()
+		cs := hookGetCacheStats()
 		return fmt.Sprint(n, len(cs.Pairs), cs.Statements, cs.DBs)
 	}
 	for _, op := range h {
@@ -240,13 +241,13 @@ func runL5Case(h []l5Op) (obs *l5Obs) {
 				return obs
 			}
 			stmts = append(stmts, s)
-			stmtIDs = append(stmtIDs, sqlair.VerifStatementID(s))
+			stmtIDs = append(stmtIDs, hookStatementID(s))
 		case "newD":
 			sqldb, st := fakedrv.Open()
 			sqldb.SetMaxOpenConns(1)
 			st.SetScript(fakedrv.Script{Columns: []string{"_sqlair_0", "_sqlair_1"}})
 			d := sqlair.NewDB(sqldb)
-			dbs = append(dbs, &l5DB{db: d, state: st, id: sqlair.VerifDBID(d)})
+			dbs = append(dbs, &l5DB{db: d, state: st, id: hookDBID(d)})
 			keep = append(keep, st)
 		case "run":
 			ints := make(zoo.Ints, op.Shape)
@@ -286,7 +287,7 @@ func runL5Case(h []l5Op) (obs *l5Obs) {
 	}
 	segment()
 	// cache snapshot restricted to this case's ids
-	cs := sqlair.VerifGetCacheStats()
+	cs := hookGetCacheStats()
 	sIdx := map[uint64]int{}
 	for i, id := range stmtIDs {
 		sIdx[id] = i + 1
@@ -445,7 +446,7 @@ func runL5Conc(r *rng.R, threads, perThread int) (obs *l5ConcObs) {
 	}
 	ids := map[uint64]bool{}
 	for _, s := range stmts {
-		ids[sqlair.VerifStatementID(s)] = true
+		ids[hookStatementID(s)] = true
 	}
 	// drop everything and collect
 	states := []*fakedrv.State{}
@@ -463,10 +464,10 @@ func runL5Conc(r *rng.R, threads, perThread int) (obs *l5ConcObs) {
 		for _, st := range states {
 			n += len(st.Events())
 		}
-		cs := sqlair.VerifGetCacheStats()
+		cs := hookGetCacheStats()
 		return fmt.Sprint(n, len(cs.Pairs), cs.Statements, cs.DBs)
 	})
-	cs := sqlair.VerifGetCacheStats()
+	cs := hookGetCacheStats()
 	for _, p := range cs.Pairs {
 		if ids[p[0]] {
 			obs.CacheLeft++
